@@ -74,7 +74,7 @@ CLAIMS = {
             'decoded sequence, ciphertext is everything after the sequence bytes (Kani, complete).',
             'Server (Verus, U19): NetcodeServer::new starts global_sequence at 2^63 and the invariant global_sequence >= 2^63 is preserved; every handshake reply (challenge, denied) is sealed with a nonce of the upper half, '
             'the first packet of a session with the session\'s own counter (lower half, history assumption < 2^63): the two classes never share a nonce under the server-to-client key they both use. '
-            'Assumed: the AEAD itself. generate_payload_packet / update_client / disconnect seal with the session counter and advance it (verbatim, U19).'),
+            'Assumed: the AEAD itself. generate_payload_packet / update_client / disconnect seal with the session counter, and every keep-alive, payload packet and first session packet consumes the counter value it was sealed with (the counter is one past it afterwards; verbatim, U19).'),
     'C19': ('Size relation: decode yields ConnectionRequest only from >= 1078 bytes; Challenge encodes to <= 333 and ConnectionDenied to <= 25 bytes, both < 1078 (Kani, complete). '
             'Control flow (Verus, U19, verbatim): process_packet_internal / handle_connection_request answer a datagram with at most one datagram, addressed to the sender, of at most 333 bytes, and only for a request whose token is authentic, '
             'unexpired and not presented from another address before; a half-open session is answered (denial of a full server) only after its response echoed a challenge this server sealed for that session\'s client id; every error path returns no datagram.',
@@ -82,7 +82,7 @@ CLAIMS = {
 }
 
 CLAIMS.update({
-    'C05': ('NetcodeServer::{handle_connection_request, find_or_add_connect_token_entry, process_packet_internal} proved verbatim (Verus, U19): a request is answered only if its private token opens under the '
+    'C05': ('NetcodeServer::{handle_connection_request, find_or_add_connect_token_entry, process_packet_internal} proved verbatim (Verus, U19): a request is answered only if it names this netcode version and this protocol id, its private token opens under the '
             'server key/protocol id/expiry it names, the clock is before the expiry, the address is not connected, and the token was not presented from another address before (token table: one entry per MAC, '
             'first address wins; a remembered token is overwritten only when no slot of the table is free and no entry is older); ClientConnected is reported only for a half-open session at that address whose response echoes a challenge this server sealed for the same client id and user data, which are the ones reported.',
             'Assumed: AEAD idealisation (token_authentic / challenge_authentic / sealed_under are uninterpreted: opening succeeds only for what the key sealed); one-line iterator chains replaced by assumed functions '
